@@ -100,6 +100,8 @@ static void zp_elem_sections(Ctx<i128>& cx, const Case& c, long p) {
       cx.eq("get_multiplicative_identity", "-", F::get_multiplicative_identity().get_value(), (i128)1);
       cx.eq("get_partial_multiplicative_identity", "-", F::get_partial_multiplicative_identity(35).get_value(), (i128)1);
     }
+    if constexpr (!HAS_INV)  // non-default Unsigned_integer_type: these members do not compile (they name the default-type class)
+      vf::stats().add("groups_without_get_inverse_identities_partial(not_compilable_for_non_default_integer_type)", 1);
     F seven(from_I<U>(fmod_((i128)7, P)));
     cx.eq("cast_unsigned_int", "-", (unsigned int)seven, fmod_((i128)7, P));
     { F m1(seven); F m2(std::move(m1)); cx.eq("move_ctor", "-", m2.get_value(), fmod_((i128)7, P)); }
@@ -705,6 +707,8 @@ static void multi_sections(Ad& ad, Ctx<typename Ad::I>& cx, const Case& c, const
         if (!(Q == P)) ++tot().nontrivial;
       }
     }
+    if constexpr (!Ad::HAS_INV)  // non-default Unsigned_integer_type: these members do not compile
+      vf::stats().add("groups_without_get_inverse_identities_partial(not_compilable_for_non_default_integer_type)", 1);
     ad.meta_extra();
   } else if (c.sec == "pinv" || c.sec == "pinvsel") {
     if constexpr (Ad::HAS_INV) {
